@@ -202,6 +202,14 @@ class Check(object):
                             self.prop, kf_all[fid]['what'])
                         if line not in lines:
                             lines.append(line)
+                    else:
+                        # the stand-in recognised the witness of a finding
+                        # that known_findings.json does not (or no longer)
+                        # list for this property: it is a violation
+                        out = dict(out, reproduced=True, witness={
+                            'observed': 'the failure pattern of finding %s '
+                            'occurs but the finding is not listed as open'
+                            % fid})
                 if out.get('reproduced'):
                     os.makedirs(os.path.join(VERIF, 'replays'), exist_ok=True)
                     path = os.path.join(VERIF, 'replays', '%s-%s.json' % (
